@@ -1,7 +1,7 @@
 #!/usr/bin/env python3
 """Evaluate seeded changes without touching /repo (development aid).
 
-usage: tools_seed_iso.py <seeded-id> [<seeded-id> ...] [--seeds 1,2,3] [--tier quick]
+usage: tools_seed_iso.py <seeded-id> [<seeded-id> ...] [--seeds 1,2,3] [--tier quick] [--check C09,C17]
 
 For each id: a scratch worktree of /repo (HEAD) with seeded/<id>/patch.diff
 applied, and a scratch copy of the committed /verif whose harness go.mod (and the
@@ -54,21 +54,23 @@ def evaluate(sid, seeds=(1,), tier="quick", checks=None):
 
 def main():
     args = sys.argv[1:]
-    seeds, tier, ids = [1], "quick", []
+    seeds, tier, ids, checks = [1], "quick", [], None
     while args:
         a = args.pop(0)
         if a == "--seeds":
             seeds = [int(x) for x in args.pop(0).split(",")]
         elif a == "--tier":
             tier = args.pop(0)
+        elif a == "--check":
+            checks = args.pop(0).split(",")
         else:
             ids.append(a)
     for sid in ids:
-        hits = evaluate(sid, seeds, tier)
+        hits = evaluate(sid, seeds, tier, checks)
         if isinstance(hits, str):
             print(sid, hits, flush=True)
         else:
-            print(sid, json.dumps([{k: h[k] for k in ("seed", "exit", "classes")} for h in hits]), flush=True)
+            print(sid, json.dumps([{k: h[k] for k in ("check", "seed", "exit", "classes")} for h in hits]), flush=True)
     return 0
 
 
